@@ -44,6 +44,37 @@ pub fn fail_full<C: Case, const N: usize, const S: usize>() {
     drop(x);
 }
 
+/// (A') the same for deep, heap-building types: the reader fails at its J-th
+/// `read_exact` call (J a harness-instance constant, every J up to the number of
+/// calls the type needs is an instance).
+pub fn fail_at_call<C: Case, const N: usize, const S: usize, const J: usize>() {
+    let x = C::make(S);
+    let mut s = Sink::<N>::new();
+    let n;
+    {
+        let mut w = WriterWithPos::new(&mut s);
+        let r = SerializeInner::_serialize_inner(&x, &mut w);
+        assert!(r.is_ok(), "HARNESS: serialization succeeds");
+        n = w.pos();
+    }
+    let mut rd = FailAtCall::new(&s.buf[..n], J);
+    let r;
+    {
+        let mut rp = ReaderWithPos::new(&mut rd);
+        r = <C::T>::_deserialize_full_inner(&mut rp);
+    }
+    match r {
+        Ok(y) => {
+            assert!(!rd.failed, "C14: a value was returned although the reader failed");
+            assert!(C::same(&x, &y), "C14: value differs from the original");
+            drop(y);
+        }
+        Err(DE::ReadError) => { assert!(rd.failed, "C14: read error without a reader failure"); }
+        Err(e) => { core::mem::forget(e); assert!(false, "C14: a failing reader yields ReadError"); }
+    }
+    drop(x);
+}
+
 /// io::Read with symbolic behaviour per call: a chunk of 1..=max bytes,
 /// Interrupted (retried by read_exact), or end of file.
 pub struct Chunky<'a> {
@@ -143,12 +174,21 @@ macro_rules! ff {
 }
 ff!(
     c14_fail_u64: U64, 16, 0 @ 4; c14_fail_optu32: OptU32, 16, 0 @ 4; c14_fail_vecu32: VecU32, 32, 0 @ 6;
-    c14_fail_vecu128: VecU128, 64, 0 @ 18; c14_fail_str: Str, 32, 6 @ 10; c14_fail_vecvec: VecVecU16, 48, 5 @ 5;
-    c14_fail_vecstring: VecString, 48, 5 @ 8; c14_fail_boxstring: BoxString, 48, 4 @ 8; c14_fail_arru32x3: ArrU32x3, 16, 0 @ 5;
+    c14_fail_vecu128: VecU128, 64, 0 @ 18; c14_fail_str: Str, 32, 6 @ 10; 
+    c14_fail_arru32x3: ArrU32x3, 16, 0 @ 14;
     c14_fail_arrstring: ArrStringx2, 48, 2 @ 8; c14_fail_tup3: Tup3, 32, 0 @ 10; c14_fail_deeps: DeepSVec, 32, 0 @ 6;
     c14_fail_zeros: ZeroSC, 16, 0 @ 6; c14_fail_e5: E5C, 48, 0 @ 6; c14_fail_optvec: OptVecU16, 32, 0 @ 5;
-    c14_fail_vecdeeps: VecDeepS, 48, 1 @ 6; c14_fail_cfdeep: CfStringVec, 32, 1 @ 6; c14_fail_boundstr: BoundString, 32, 2 @ 6;
+    c14_fail_cfdeep: CfStringVec, 32, 1 @ 6; c14_fail_boundstr: BoundString, 32, 2 @ 6;
 );
+
+macro_rules! fc {
+    ($($name:ident : $case:ty, $n:literal, $s:literal, $j:literal @ $unw:literal);* $(;)?) => {$(
+        #[cfg_attr(kani, kani::proof)] #[cfg_attr(kani, kani::unwind($unw))]
+        #[cfg_attr(kani, kani::stub(core::str::from_utf8, crate::env::from_utf8_stub))]
+        pub fn $name() { fail_at_call::<$case, $n, $s, $j>() }
+    )*};
+}
+include!("c14_calls.rs");
 
 /// Reachability twin.
 #[cfg_attr(kani, kani::proof)] #[cfg_attr(kani, kani::unwind(8))]
